@@ -212,16 +212,21 @@ Qed.
 
 (* ---- the byte sequence itself: what was written is what is there ----------------------------- *)
 
-Lemma overwrite_length data pos d :
+Lemma overwrite_nonempty data pos x d : overwrite data pos (x :: d) = overwrite_at data pos (x :: d).
+Proof. reflexivity. Qed.
+
+Lemma overwrite_length data pos d : d <> [] ->
   length (overwrite data pos d) = Nat.max (length data) (pos + length d).
 Proof.
-  unfold overwrite. rewrite !app_length, firstn_length, repeat_length, skipn_length. lia.
+  destruct d as [|x d]; [contradiction|]. intros _. rewrite overwrite_nonempty.
+  unfold overwrite_at. rewrite !app_length, firstn_length, repeat_length, skipn_length. lia.
 Qed.
 
 (* the bytes written are read back from the place they were written to *)
 Lemma overwrite_read_back data pos d : firstn (length d) (skipn pos (overwrite data pos d)) = d.
 Proof.
-  unfold overwrite.
+  destruct d as [|x d0]; [reflexivity|]. rewrite overwrite_nonempty. set (d := x :: d0).
+  unfold overwrite_at.
   assert (L : length (firstn pos data ++ repeat 0 (pos - length data)) = pos).
   { rewrite app_length, firstn_length, repeat_length. lia. }
   rewrite app_assoc. rewrite skipn_app, L, Nat.sub_diag. simpl skipn at 2.
@@ -233,7 +238,8 @@ Qed.
 Lemma overwrite_before data pos d i : (i < pos)%nat -> (i < length data)%nat ->
   nth i (overwrite data pos d) 0 = nth i data 0.
 Proof.
-  intros H1 H2. unfold overwrite. rewrite app_nth1 by (rewrite firstn_length; lia).
+  intros H1 H2. destruct d as [|x d0]; [reflexivity|]. rewrite overwrite_nonempty. set (d := x :: d0).
+  unfold overwrite_at. rewrite app_nth1 by (rewrite firstn_length; lia).
   rewrite <- (firstn_skipn pos data) at 2. rewrite app_nth1 by (rewrite firstn_length; lia). reflexivity.
 Qed.
 
@@ -241,7 +247,8 @@ Qed.
 Lemma overwrite_after data pos d i : (pos + length d <= i)%nat ->
   nth i (overwrite data pos d) 0 = nth i data 0.
 Proof.
-  intro H. unfold overwrite.
+  destruct d as [|x d0]; [reflexivity|]. rewrite overwrite_nonempty. set (d := x :: d0).
+  intro H. unfold overwrite_at.
   assert (L : length (firstn pos data ++ repeat 0 (pos - length data)) = pos).
   { rewrite app_length, firstn_length, repeat_length. lia. }
   rewrite app_assoc. rewrite app_nth2 by lia. rewrite L.
